@@ -227,6 +227,24 @@ CHECKS = {
              'calls outside the allowed root are recorded and then blocked, '
              'because the hostile workload runs in the checking process',
         design='3/C13'),
+    'C14': dict(
+        level='exploration',
+        technique='runtime monitoring: request/response log checker at SFTP '
+                  'framing level (per-id multiset, legal-type table, status '
+                  'mapping) with a raw client against the real server and a '
+                  'scripted hostile server against the real client; '
+                  'round-trip oracle for the attribute codec',
+        text='Every request type in versions 3-6, intact, truncated at '
+             'sampled/all points, with trailing bytes, unknown types and '
+             'extended names, pipelined: exactly one response per id, of a '
+             'legal type, no unsolicited ids, the session stays usable; '
+             'concurrent client calls each receive their own reply in every '
+             'reply order and fail cleanly on unknown/duplicate/wrong-type '
+             'replies; SFTPAttrs/SFTPName survive encode/decode for the '
+             'fields each version can carry (all 2^5 v3 subsets).',
+        note='trusted: vf/sftpref.py framing and legal-type table (from the '
+             'filexfer drafts)',
+        design='3/C14'),
     'C15': dict(
         level='exploration',
         technique='runtime monitoring by round-trip and differential '
